@@ -174,11 +174,14 @@ func build(r *fw.Rand) *model {
 	if r.Chance(1, 4) {
 		m.project = "IntViews"
 	}
-	switch r.Intn(3) {
-	case 0:
+	switch r.Intn(7) {
+	case 0, 1:
 		m.projAttrs = ` [appfmt="%(appname)"]`
-	case 1:
+	case 2, 3:
 		m.projAttrs = ` [appfmt="%(appname)", title="Integrations %(epname)"]`
+	case 4:
+		// arrows between two applications that are both not listed are then left out
+		m.projAttrs = ` [indirect_arrow_color="none"]`
 	}
 
 	var nonHuman []string
